@@ -573,12 +573,25 @@ func (b *Reader) SkipTo(ty, tag byte, require bool) (bool, error) {
 	return have, nil
 }
 
+// CheckLength validates a length or element count read from the input before it is used to
+// allocate: it must not be negative and, since every element takes at least one byte, it cannot
+// exceed what is left to read.
+func (b *Reader) CheckLength(length int32) error {
+	if length < 0 || int(length) > b.buf.Len() {
+		return fmt.Errorf("invalid length %d, %d bytes left", length, b.buf.Len())
+	}
+	return nil
+}
+
 // ReadSliceInt8 reads []int8 for the given length and the require or optional sign.
 func (b *Reader) ReadSliceInt8(data *[]int8, len int32, require bool) error {
 	if len <= 0 {
 		// an empty vector was sent: do not leave the previous content of the target in place
 		*data = nil
 		return nil
+	}
+	if err := b.CheckLength(len); err != nil {
+		return fmt.Errorf("read []int8 error:%v", err)
 	}
 
 	*data = make([]int8, len)
@@ -595,6 +608,9 @@ func (b *Reader) ReadSliceUint8(data *[]uint8, len int32, require bool) error {
 		*data = nil
 		return nil
 	}
+	if err := b.CheckLength(len); err != nil {
+		return fmt.Errorf("read []uint8 error:%v", err)
+	}
 
 	*data = make([]uint8, len)
 	_, err := io.ReadFull(b.buf, *data)
@@ -606,6 +622,9 @@ func (b *Reader) ReadSliceUint8(data *[]uint8, len int32, require bool) error {
 
 // ReadBytes reads []byte for the given length and the require or optional sign.
 func (b *Reader) ReadBytes(data *[]byte, len int32, require bool) error {
+	if err := b.CheckLength(len); err != nil {
+		return err
+	}
 	*data = make([]byte, len)
 	_, err := io.ReadFull(b.buf, *data)
 	return err
